@@ -456,6 +456,68 @@ def run(ctx):
             fwd = True
     ctx.decide(fwd, "C11.prime", sp.ident, loc_of(sp), "sample_posterior forwards the primed checkpoint as resume_from",
                "sample_posterior never forwards _resume_from_default as resume_from", disc="forward")
+    # value-based: when it is forwarded, with which size and to which sampler
+    evp = Evaluator(repo, max_depth=0)
+    evp.run(sp, A)
+    me = T.atom(sp.params[0])
+    kwv = T.atom("**kwargs")
+
+    def flat(conds):
+        out = set()
+        for c, pol in conds:
+            while c[0] == "not":
+                c, pol = c[1], not pol
+            if c[0] == "and" and pol:
+                out |= flat([(x, True) for x in c[1]])
+            else:
+                out.add((c, pol))
+        return out
+    has = lambda a: ("f", "builtins.hasattr", (me, T.K(a)), ())  # noqa: E731
+    primed = {(("in", T.K("resume_from"), kwv), False), (has("_resume_from_default"), True)}
+    sets = [e for e in evp.events if e.callee == "setitem" and e.func is sp and len(e.args) == 3 and e.args[1] == T.K("resume_from")]
+    okc = len(sets) == 1 and sets[0].args[2] == ("attr", me, "_resume_from_default") and flat(sets[0].conds) == primed
+    ctx.decide(okc, "C11.prime", sp.ident, loc_of(sp, sets[0].node if sets else None),
+               "the primed checkpoint is forwarded exactly when the caller passed no resume_from and the instance was primed",
+               "the primed checkpoint is forwarded under " + (" and ".join(("" if p_ else "not ") + T.show(c_)[:60] for c_, p_ in sorted(flat(sets[0].conds), key=repr)) if sets else "no condition")
+               + ": a resume through the resume-from-file constructor starts from scratch, or overrides the caller's checkpoint", disc="forward|when")
+    runs = [e for e in evp.events if e.callee == "method:sample" and e.func is sp]
+    if len(runs) != 1:
+        ctx.unknown("C11.prime", sp.ident, loc_of(sp), f"expected one sampler.sample call, found {len(runs)}", disc="forward|size")
+    else:
+        nsv = runs[0].args[1] if len(runs[0].args) > 1 else None
+        n_at = T.atom("n_samples")
+
+        def oracle(on, default_size=None):
+            default_size = on if default_size is None else default_size
+
+            def o(c):
+                if c == ("in", T.K("resume_from"), kwv):
+                    return not on
+                if c[0] == "f" and c[1] == "builtins.hasattr":
+                    return on
+                if c[0] == "cmp" and any(x == n_at for x in T.subterms(c)):
+                    return default_size if c[1] == "==" else (not default_size)
+                return None
+            return o
+        ok_n = nsv is not None and T.resolve(nsv, oracle(True)) == ("attr", me, "_resume_n_samples") and T.resolve(nsv, oracle(False)) == n_at \
+            and T.resolve(nsv, oracle(True, default_size=False)) == n_at and T.resolve(nsv, oracle(False, default_size=True)) == n_at
+        ctx.decide(ok_n, "C11.prime", sp.ident, loc_of(sp, runs[0].node), "a primed resume with the default size runs with the checkpointed population size; otherwise the caller's size is used",
+                   f"the size handed to the sampler is {T.show(nsv)[:200] if nsv else None}", disc="forward|size")
+        kws = dict(runs[0].kwargs).get("**")
+        ok_k = kws is not None and sets and any(x_ == sets[0].result for x_ in T.subterms(kws))
+        ctx.decide(bool(ok_k), "C11.prime", sp.ident, loc_of(sp, runs[0].node), "the keyword arguments handed to the sampler are built from the primed ones",
+                   "the keyword arguments handed to sampler.sample are not derived from the kwargs that received resume_from", disc="forward|kwargs")
+    gsc = [e for e in evp.events if e.func is sp and (e.callee.endswith("get_sampler_class") or e.callee.endswith("init_sampler"))]
+    s_at = T.atom("sampler")
+    want_s = None
+    if gsc:
+        v0 = gsc[0].args[1] if gsc[0].args[0] == me else gsc[0].args[0]
+        def o_s(on):
+            return lambda c: (on if (c[0] == "cmp" and c[1] == "==" and any(x == s_at for x in T.subterms(c))) or (c[0] == "f" and c[1] == "builtins.hasattr") or c == ("attr", me, "_resume_sampler_type") else None)
+        want_s = T.resolve(v0, o_s(True)) == ("attr", me, "_resume_sampler_type") and T.resolve(v0, o_s(False)) == s_at \
+            and all((e.args[1] if e.args[0] == me else e.args[0]) == v0 for e in gsc)
+    ctx.decide(bool(want_s) and len(gsc) == 2, "C11.prime", sp.ident, loc_of(sp), "a primed resume left at the default sampler uses the sampler recorded with the checkpoint; class lookup and construction use the same choice",
+               "the sampler that continues a primed resume is not (only) the recorded one when the default is left in place", disc="forward|sampler")
 
 
 def _state_term(ev, f):
@@ -528,6 +590,10 @@ MUTANTS = [
       "maybe_checkpoint()\n                samples = self.mutate(samples, beta)\n                if store_sample_history:\n                    self.history.sample_history.append(samples)", "C11.cut"),
     M("resumed run re-records the restored population", _B, "if store_sample_history and not resumed:", "if store_sample_history:", "C11.reentry"),
     M("bytes source unsupported", _SB, "elif isinstance(source, bytes):\n            state = pickle.loads(source)\n", "", "C11.src"),
+    M("primed checkpoint overrides the caller's", _A, "if \"resume_from\" not in kwargs and hasattr(", "if \"resume_from\" in kwargs and hasattr(", "C11.prime"),
+    M("primed size overrides an explicit size", _A, "if hasattr(self, \"_resume_n_samples\") and n_samples == 1000:", "if hasattr(self, \"_resume_n_samples\") or n_samples == 1000:", "C11.prime"),
+    M("primed size ignored", _A, "if hasattr(self, \"_resume_n_samples\") and n_samples == 1000:", "if hasattr(self, \"_resume_n_samples\") and n_samples != 1000:", "C11.prime"),
+    M("recorded sampler ignored", _A, "sampler = self._resume_sampler_type\n", "pass\n", "C11.prime"),
     M("primed checkpoint not forwarded", _A, "kwargs[\"resume_from\"] = self._resume_from_default", "pass", "C11.prime"),
     M("restored iteration dropped", _B, "samples, beta, iterations = self.restore_from_checkpoint(\n                resume_from\n            )", "samples, beta, _ = self.restore_from_checkpoint(\n                resume_from\n            )\n            iterations = 0", "C11.state"),
 ]
